@@ -541,7 +541,7 @@ static void write_evidence(CheckState& st, double wall, int nviol, const std::ve
     }
     cov->set("batches", bt);
     cov->set("flavour", flavour() == "san" ? "replicas and simulator built with AddressSanitizer+UndefinedBehaviorSanitizer (no recover)" : "plain -Ofast replicas");
-    cov->set("real_code", "every line of /repo/include and /repo/src, rebuilt from the working tree into replicas A (x86-64 asm, run-time dispatch; loaded twice: BMI2/ADX and baseline), As (-mbmi2 -madx static dispatch), B (-DDISABLE_ASM, 64-bit words), C (-DDISABLE_ASM, 32-bit words), G (the asm configuration built with g++; plain flavour only), each together with the verification adapter");
+    cov->set("real_code", "every line of /repo/include and /repo/src, rebuilt from the working tree into replicas A (x86-64 asm, run-time dispatch; loaded twice: BMI2/ADX and baseline), As (-mbmi2 -madx static dispatch, -DNDEBUG: the release build), B (-DDISABLE_ASM, 64-bit words), C (-DDISABLE_ASM, 32-bit words, -funsigned-char as in the ARM ABIs), G (the asm configuration built with g++; plain flavour only), each together with the verification adapter");
     cov->set("stubs", "caller's random source (seeded stream with scripted faults), caller's hash function, store/transport of marshalled bytes, the Go wrapper's allocate-then-unmarshal protocol (re-implemented from lang/go), OS scheduler (serialising seeded scheduler), libc entry points (trapped)");
     cov->set("not_covered", "no AArch64 or ARMv6-M CPU or emulator exists in this sandbox: 4 of the 6 configurations run natively; the hand-written AArch64 and ARMv6-M assembly routines run under the simulator's own interpreter of their source text in the register-machine layer of C03 only (their C++ glue headers include/core/arch/{aarch64,armv6_m}/*.hpp are represented by the interpreter's call sequence, and everything above the eight routines is the portable code of the same word size); no Go toolchain");
     if (!g_arm_note.empty()) cov->set("interpreted_arm_back_ends", g_arm_note + "the assembly source text of /repo/src/core/arch/{aarch64,armv6_m} runs under the simulator's own interpreter (macro expansion, instruction semantics, flags, bounds-checked guest memory, calling-convention checks); they take part in the cross-replica batches of scenario prim only");
